@@ -94,6 +94,13 @@ theorem spec_is_arithmetic (n N : Nat) :
     specPrimes N = (List.range (N + 1)).filter Nat.Prime :=
   ⟨specMinFac_eq n, specIsPrime_eq n, specPrimes_eq N⟩
 
+/-- … and the model's `factorize` returns literally the trial-division factorisation of the `S` column
+    (a factorisation with strictly increasing primes and exact exponents is unique). -/
+theorem factorize_eq_spec (N n fuel : Nat) (h1 : 1 ≤ n) (hn : n ≤ N) (hf : n < 2 ^ fuel) :
+    factorize (sieve N) fuel n = .ok (specFactorize fuel n) := by
+  obtain ⟨l, e, hF, _⟩ := factorize_ok (sieve_minTable N) fuel n h1 hn hf
+  rw [e, hF.unique (specFactorize_ok fuel n h1 hf)]
+
 /-! ### non-vacuity: concrete limits and arguments satisfy the hypotheses, and the statements say something -/
 
 example : minPrime (sieve 100) 91 = .ok 7 := by
